@@ -257,6 +257,51 @@ def sequence_case(ctx, idx, rng):
     ctx.case(('sequence', 'mpo' if is_mpo else 'mps', f'L{L}') + tuple(hist), nontrivial=len([h for h in hist if h.startswith('orth')]) >= 1, sample={'history': hist, 'L': L, 'd': d})
 
 
+def large_case(ctx, idx, rng):
+    """Beyond the dense reach (L up to 24, d up to 6, bonds up to 16): the same claims through transfer-matrix overlaps with probe states."""
+    from .. import large
+    L = int(rng.integers(8, 25))
+    d = int(rng.choice([2, 3, 5, 6]))
+    Dmax = int(rng.choice([6, 10, 16]))
+    layout = str(rng.choice(['zero', 'unsorted', 'sorted', 'pairs']))
+    qd = _qd(rng, d, layout)
+    kind = str(rng.choice(['complex', 'real', 'mixed']))
+    psi = large.big_state(rng, qd, L, Dmax, kind)
+    mode = ('left', 'right')[idx % 2]
+    A_old = [np.array(a, dtype=complex) for a in psi.A]
+    D_old = list(psi.bond_dims)
+    n0 = large.norm_of(A_old)
+    sc = large.tensor_scale(A_old)
+    probes = large.probes_near(rng, A_old)
+    o_old = [refs.mps_overlap(p, A_old) for p in probes]
+    ends = (psi.qD[0].copy(), psi.qD[-1].copy())
+    ctx.case(('large-mps', f'L{L // 8 * 8}+', f'd{d}', f'D{Dmax}', layout, kind, mode), sample={'L': L, 'd': d, 'bond_dims': D_old, 'mode': mode})
+    detail = {'L': L, 'd': d, 'bond_dims': D_old, 'mode': mode, 'qd': qd}
+    nrm = psi.orthonormalize(mode)
+    inv = refs.mps_invariant(psi)
+    if not ctx.ok('large.block-sparse-after', inv is None, str(inv), detail):
+        return
+    nrm = float(nrm)
+    ctx.ok('large.factor-nonnegative', nrm >= 0, f'factor {nrm}', detail)
+    ctx.close('large.factor-equals-norm', abs(nrm - n0), 1e-9 * n0 + 1e-12 * sc, f'factor {nrm} != norm {n0}', detail)
+    ctx.close('large.unit-norm-after', abs(large.norm_of(psi.A) - 1), 1e-9, 'norm after orthonormalize != 1', detail)
+    worst = 0.0
+    for A in psi.A:
+        M = A.reshape(-1, A.shape[2]) if mode == 'left' else A.transpose(0, 2, 1).reshape(-1, A.shape[1])
+        worst = max(worst, float(np.linalg.norm(M.conj().T @ M - np.identity(M.shape[1]))) / max(1.0, np.sqrt(M.shape[1])))
+    ctx.close('large.site-isometries', worst, 1e-9, f'a site tensor is not an isometry in direction {mode}', detail)
+    for k, (p, o) in enumerate(zip(probes, o_old)):
+        ctx.close('large.factor-times-new-equals-old[probe-overlaps]', abs(nrm * refs.mps_overlap(p, psi.A) - o), 1e-9 * large.norm_of(p) * n0 + 1e-12 * large.tensor_scale(p) * sc,
+                  f'<probe|old> != factor <probe|new> (probe {k})', detail)
+    D = list(psi.bond_dims)
+    if mode == 'left':
+        okb = all(D[i + 1] <= min(d * D[i], D_old[i + 1]) for i in range(L))
+    else:
+        okb = all(D[i] <= min(d * D[i + 1], D_old[i]) for i in range(L))
+    ctx.ok('large.bond-dims-bounded', okb, f'bond dims {D_old} -> {D}', detail)
+    ctx.ok('large.boundary-charges-kept', np.array_equal(psi.qD[0], ends[0]) and np.array_equal(psi.qD[-1], ends[1]), 'boundary charges changed', detail)
+
+
 def insitu_case(ctx, idx, rng):
     """orthonormalize as called by compress, TDVP and DMRG on their own data."""
     def around(orig, self, mode='left'):
@@ -293,7 +338,7 @@ SPEC = {
              '(incl. the scalar-fill constructor), float32} x both modes, followed by a second call on the canonical object; MPO: L 1..4, d 1..3, '
              'random / built-in model / built-in model with vanishing parameters (exactly sparse tensors) / over-complete / disjoint; both classes '
              'additionally with exact structure on inner bonds: dead bond indices, exactly duplicated (dependent) bond slices, random exact zeros. Sequences: the same object orthonormalised repeatedly with edits in between (tensor replaced, scaled, compressed, added to itself). '
-             'In situ: orthonormalize as called from compress, TDVP, DMRG. '
+             'Large: MPS with L up to 24, d up to 6, bonds up to 16 through transfer-matrix overlaps with probe states (no dense object). In situ: orthonormalize as called from compress, TDVP, DMRG. '
              'Non-trivial = non-zero object; distinct = (class, L, d, profile, layout, entry kind, mode).'),
     'deciding': ['mps.factor-equals-norm', 'mps.factor-times-new-equals-old', 'mps.site-isometries', 'mps.unit-norm-after', 'mps.bond-dims-bounded',
                  'mpo.factor-equals-norm', 'mpo.factor-times-new-equals-old', 'mpo.site-isometries', 'mps.factor-nonnegative', 'mpo.factor-nonnegative'],
@@ -301,6 +346,7 @@ SPEC = {
         Workload('mps', mps_case, quick=2400, thorough=400000),
         Workload('mpo', mpo_case, quick=1000, thorough=150000),
         Workload('sequence', sequence_case, quick=600, thorough=60000),
+        Workload('large', large_case, quick=60, thorough=6000),
         Workload('insitu', insitu_case, quick=80, thorough=10000),
     ],
     'shards': {'quick': 1, 'thorough': 16},
